@@ -44,11 +44,16 @@ def _path(d, opts):
     return os.path.join(d, "t.parq" if opts.get("file_scheme", "simple") == "simple" else "ds")
 
 
-def write_case(case, d):
-    """Write the case; returns (df, path, error-or-None)."""
+def write_case(case, d, add_rid=False):
+    """Write the case; returns (df, path, error-or-None).  add_rid: append a unique
+    int64 row-id column `_rid` (original row position) so that results of filtered or
+    regrouped reads can be attributed to input rows."""
     import fastparquet
     fr, opts = case["frame"], case["opts"]
     df = cases.build_frame(fr)
+    if add_rid:
+        import numpy as np
+        df["_rid"] = np.arange(fr["n"], dtype="int64")
     path = _path(d, opts)
     kw = cases.write_kwargs(opts)
     if case.get("partition_on"):
